@@ -50,9 +50,12 @@ def validate_trace(trace_path, module="MxSession_Trace.tla", cfg="MxSession_Trac
     r = run_tlc(module, cfg, workers=1, env={"TRACE": os.path.abspath(trace_path)}, timeout=timeout, tag="tv", java_opts=jo)
     out = r["out"]
     rej = sorted(set(int(x) for x in re.findall(r'"TRACE_REJECT_LINE", (\d+)', out)))
+    ctx = {}
+    for m in re.finditer(r'"TRACE_REJECT_LINE", (\d+), <<"([^"]*)", "([^"]*)", "([^"]*)", (TRUE|FALSE), (TRUE|FALSE)>>', out):
+        ctx[int(m.group(1))] = dict(dead=m.group(2), hs=m.group(3), rd=m.group(4), done=m.group(5) == "TRUE", desync=m.group(6) == "TRUE")
     done = "TRACE_DONE" in out
     res = {"accepted": False, "rejects": rej, "reason": None, "out": out, "states": r.get("states", 0),
-           "transitions": r.get("transitions", 0), "wall": r["wall"], "done": done, "infra": False, "violation": r["violation"]}
+           "transitions": r.get("transitions", 0), "wall": r["wall"], "done": done, "infra": False, "violation": r["violation"], "ctx": ctx}
     if r["violation"]:
         res["reason"] = r["violation"]
         m = re.findall(r"/\\ l = (\d+)", out)
